@@ -89,6 +89,7 @@ MUTATIONS = [
     ('t-first-due-only', 'C19', TL, "        while self.timeline and time >= self.timeline[0][0]:", "        if self.timeline and time >= self.timeline[0][0]:"),
     ('t-strict-compare', 'C19', TL, "        while self.timeline and time >= self.timeline[0][0]:", "        while self.timeline and time > self.timeline[0][0]:"),
     ('t-unsorted', 'C19', TL, "        self.timeline = sorted(merged.items(), key=lambda event: event[0])", "        self.timeline = list(merged.items())"),
+    ('t-earlier-event-wins', 'C19', TL, "                update = deep_merge(update, update_at_path)", "                update = deep_merge(update_at_path, update)"),
     # composites
     ('c-merge-no-copy', 'C16', C, "                deep_copy_internal(composite['processes']))", "                composite['processes'])"),
     ('c-merge-ignores-path', 'C16', C, "        merge_processes = assoc_in({}, path, merge_processes)\n", ""),
